@@ -125,7 +125,7 @@ pub fn run(ctx: &Ctx, rec: &mut Rec) {
     // hostile point encodings: both engines must give the same verdict (and the same point)
     rec.declare_form("hostile encodings");
     rec.declare_form("cofactor clearing");
-    for cl in ["coordinate + p", "coordinate = p", "flag bits", "bit flip", "x+1 (off curve / other point)", "random bytes", "truncated", "on curve outside subgroup"] {
+    for cl in ["coordinate + p", "coordinate = p", "flag bits", "bit flip", "x+1 (off curve / other point)", "random bytes", "truncated", "on curve outside subgroup", "unvalidated mode"] {
         rec.declare_class(&format!("enc:{cl}"));
     }
     par(rec, |w, n, rec| {
@@ -223,6 +223,34 @@ pub fn run(ctx: &Ctx, rec: &mut Rec) {
                     }
                 }
             }
+            // unvalidated modes: bytes of honest points and of (coordinate + p) variants through
+            // Validate::No must still get the same verdict / value from both engines
+            let unchecked_cases: Vec<(bool, Compress, Vec<u8>)> = cases.iter().filter(|c| c.0 == "coordinate + p" || c.0 == "bit flip").map(|c| (c.1, c.2, c.3.clone())).collect();
+            for (is_g2, c, bytes) in unchecked_cases {
+                rec.form("hostile encodings");
+                rec.class("enc:unvalidated mode");
+                rec.eval(&("unchecked", bytes.clone(), is_g2), false);
+                let b2 = bytes.clone();
+                let res = guarded(|| {
+                    if is_g2 {
+                        let o = <<Ours as Pairing>::G2Affine as CanonicalDeserialize>::deserialize_with_mode(&b2[..], c, Validate::No).map(|p| ser(&p, Compress::No)).ok();
+                        let r = <<Refe as Pairing>::G2Affine as CanonicalDeserialize>::deserialize_with_mode(&b2[..], c, Validate::No).map(|p| ser(&p, Compress::No)).ok();
+                        (o, r)
+                    } else {
+                        let o = <<Ours as Pairing>::G1Affine as CanonicalDeserialize>::deserialize_with_mode(&b2[..], c, Validate::No).map(|p| ser(&p, Compress::No)).ok();
+                        let r = <<Refe as Pairing>::G1Affine as CanonicalDeserialize>::deserialize_with_mode(&b2[..], c, Validate::No).map(|p| ser(&p, Compress::No)).ok();
+                        (o, r)
+                    }
+                });
+                match res {
+                    Err(pn) => rec.violation(format!("{P}:hostile-encoding:panic"), format!("unvalidated deserialisation panicked: {pn}"), json!({"bytes": hx(&bytes)})),
+                    Ok((o, r)) => {
+                        if o != r {
+                            rec.violation(format!("{P}:hostile-encoding:unvalidated-mode-differs"), format!("Validate::No deserialisation of a {} encoding: crate engine {} / reference engine {}", if is_g2 { "G2" } else { "G1" }, if o.is_some() { "accepts" } else { "rejects" }, if r.is_some() { "accepts" } else { "rejects" }), json!({"bytes": hx(&bytes)}));
+                        }
+                    }
+                }
+            }
             for (class, is_g2, c, bytes) in cases {
                 rec.form("hostile encodings");
                 rec.class(&format!("enc:{class}"));
@@ -258,6 +286,49 @@ pub fn run(ctx: &Ctx, rec: &mut Rec) {
             }
         }
     });
+    // base-field ordering and sign conventions (they decide the flag bit of compressed points):
+    // cmp(y, -y) for y at every distance from p/2, and pairs sharing their high limbs
+    rec.declare_form("Fp ordering vs reference");
+    {
+        let pmod = ctx.fp.p.clone();
+        let half = (&pmod - b(1)) >> 1;
+        let mut r0 = rng_for(ctx.seed, P, 996, 0);
+        let mut ys: Vec<B> = crate::zoo::threshold_sweep(&half, 376, &mut r0, 1).into_iter().filter(|v| v < &pmod).collect();
+        for _ in 0..ctx.scale(2000, 50_000) {
+            ys.push(rand_below(&mut r0, &pmod));
+        }
+        par(rec, |w, n, rec| {
+            let mut rng = rng_for(ctx.seed, P, w, 9);
+            for (i, y) in ys.iter().enumerate() {
+                if i % n != w {
+                    continue;
+                }
+                let other = match i % 3 {
+                    0 => ctx.fp.neg(y),
+                    1 => {
+                        // same high limbs, low limbs re-randomised
+                        let k = 1 + rand_range(&mut rng, 5);
+                        let low = (b(1) << (64 * k)) - b(1);
+                        ((y - (y & &low)) + rand_below(&mut rng, &(b(1) << (64 * k)))) % &pmod
+                    }
+                    _ => rand_below(&mut rng, &pmod),
+                };
+                rec.form("Fp ordering vs reference");
+                rec.eval(&("fp-ord", y.to_bytes_le(), other.to_bytes_le()), false);
+                let (oy, oo) = (fp(y), fp(&other));
+                let ry = <Refe as Pairing>::BaseField::from_le_bytes_mod_order(&crate::model::to_le(y, 48));
+                let ro = <Refe as Pairing>::BaseField::from_le_bytes_mod_order(&crate::model::to_le(&other, 48));
+                match guarded(|| (oy.cmp(&oo), ry.cmp(&ro), oy > -oy, ry > -ry)) {
+                    Err(pn) => rec.violation(format!("{P}:Fp-ordering:panic"), pn, json!({})),
+                    Ok((a, bb, c1, c2)) => {
+                        if a != bb || c1 != c2 || a != y.cmp(&other) {
+                            rec.violation(format!("{P}:Fp-ordering"), format!("cmp({}, {}) = {a:?} in the crate's Fp, {bb:?} in the reference field", hexs(y), hexs(&other)), json!({"y": hexs(y), "other": hexs(&other)}));
+                        }
+                    }
+                }
+            }
+        });
+    }
     // pairings
     par(rec, |w, n, rec| {
         let mut rng = rng_for(ctx.seed, P, w, 2);
